@@ -652,7 +652,9 @@ def run(ctx):
     full_depth = ctx.q(1, 2)
     states, raw = generate_states(ctx, hists, depth)
     # (selected-file commits of a pending merge are all refused: one level of states is enough there)
-    items = [(h, ops, len(ops) <= full_depth) for h, ops in states if h != "merge" or len(ops) <= 1]
+    # quick tier: the second history (directory rename + path reuse) is explored one op deep only
+    items = [(h, ops, len(ops) <= full_depth) for h, ops in states
+             if (h != "merge" or len(ops) <= 1) and (ctx.thorough or h != "h2" or len(ops) <= 1)]
     acc = par.merge(par.pmap(_case_work, items, seed=ctx.seed, chunks_per_job=8))
     # determinism audit: the first states twice
     a1 = _case_work(items[1:3])
@@ -689,6 +691,7 @@ def run(ctx):
         "full_selection_depth": full_depth,
         "sequences_tried": raw,
         "distinct_states": len(states),
+        "states_committed_from": len(items),
         "states_with_pending_changes": acc.counters.get("states_with_changes", 0),
         "committed": acc.counters.get("committed", 0),
         "refused": {k[8:]: v for k, v in acc.counters.items() if k.startswith("refused:")},
